@@ -11,8 +11,8 @@ constructors) are the `Err` values; `ubEmptySection` marks the one place where t
 behaviour instead of an exception (`CompoundCurve::validateConstruction` calls `front()/back()` on an
 empty section when there are at least two sections).
 
-`readGeom` recurses on a fuel argument; `read` supplies the input length, which always suffices
-(each nesting level consumes at least five bytes).
+`readGeom` recurses on a fuel argument = the recursion depth still allowed; `read` supplies the input
+length + 1, which always suffices (each nesting level consumes at least five bytes; `Props/C11`).
 Core Lean only.
 -/
 namespace GeosModel.WKB
@@ -290,7 +290,7 @@ def readGeom : Nat → Order → List UInt8 → GRes
 /-- `WKBReader::read(buf, size)`: the stream starts in machine (little endian) order; bytes after the
 geometry are ignored -/
 def read (bs : List UInt8) : Except Err Geom :=
-  match readGeom bs.length .le bs with
+  match readGeom (bs.length + 1) .le bs with
   | .error e => .error e
   | .ok ((g, srid), _, _) => .ok ⟨srid, g⟩
 
